@@ -30,7 +30,7 @@ followed by `:`; block lines keep their indentation.
 import re
 
 SECTION_RE = re.compile(
-    r'^(ret|requires|ensures|decreases|loop|closure|hint|probe|carve|opts|body|sig|wrap|bind)\b([^:]*):\s*(.*)$')
+    r'^(ret|requires|ensures|decreases|loop|closure|hint|probe|carve|opts|body|sig|wrap|bind|bodysub)\b([^:]*):\s*(.*)$')
 
 
 class FnContract:
@@ -154,12 +154,12 @@ def parse_vc(path, into=None):
             kind, arg, rest = m.group(1), m.group(2), m.group(3)
             if kind == 'ret':
                 cur.ret = rest.strip()
-            elif kind == 'sig':
-                # sig: s/old/new/
+            elif kind in ('sig', 'bodysub'):
+                # sig: s/old/new/   body: s|old|new|   (listed rewrites; counted)
                 a = rest.strip()
                 d = a[1]
                 _, old, new, _ = a.split(d)
-                cur.sig_subst.append((old, new))
+                (cur.sig_subst if kind == 'sig' else cur.body_subst).append((old, new))
             else:
                 sec = (kind, arg)
                 if rest.strip():
